@@ -40,7 +40,7 @@ use crate::confchange::Changer;
 use crate::quorum::VoteResult;
 use crate::util;
 use crate::util::NO_LIMIT;
-use crate::{confchange, Progress, ProgressState, ProgressTracker};
+use crate::{confchange, HashMap, Progress, ProgressState, ProgressTracker};
 
 // CAMPAIGN_PRE_ELECTION represents the first phase of a normal election when
 // Config.pre_vote is true.
@@ -1564,6 +1564,21 @@ impl<T: Storage> Raft<T> {
                 "cannot campaign at term {} since there are still pending configuration changes to apply", self.term
             );
             return;
+        }
+
+        // If this node's own vote is a quorum, campaigning makes it leader at once, which
+        // requires all its entries to be persisted already (see `become_leader`). With
+        // asynchronously persisted entries still in flight, wait for the next timeout.
+        if self.raft_log.persisted < self.raft_log.last_index() {
+            let mut own_vote = HashMap::default();
+            own_vote.insert(self.id, true);
+            if self.prs.vote_result(&own_vote) == VoteResult::Won {
+                warn!(
+                    self.logger,
+                    "cannot campaign at term {} since its own vote is a quorum and there are still unpersisted entries", self.term
+                );
+                return;
+            }
         }
 
         info!(
